@@ -73,6 +73,7 @@ Inductive label :=
 | Lpush (k : kind)    (* ImportWallet* / RemoveWallet returned: task pushed (or dropped: channel full) *)
 | Ltb                 (* API request refused: ErrTooManyTask *)
 | Ltp                 (* API request panicked on the nil taskChan *)
+| Lte                 (* API request failed: the database is closed *)
 | Lhb                 (* handler took a block and begins its database transaction *)
 | Lhc                 (* handler's transaction ended *)
 | Lkb                 (* sigSuspend rendezvous; worker begins its database transaction *)
@@ -83,7 +84,7 @@ Inductive label :=
 
 Definition observable (l : label) : bool :=
   match l with
-  | La | Lpush _ | Ltb | Ltp | Lhb | Lhc | Lkb | Lkc | Ls | Lz => true
+  | La | Lpush _ | Ltb | Ltp | Lte | Lhb | Lhc | Lkb | Lkc | Ls | Lz => true
   | _ => false
   end.
 
@@ -174,26 +175,37 @@ Definition t_ann (c : cfg) (s : state) : option state :=
 (* A: `if w.ntfnsHandler.IsWorkerBusy()` = h.taskChan.IsBusy() = len(c.C) >= MaxWaitingTaskNum;
    h.taskChan is nil until the worker goroutine has assigned it *)
 Definition t_achk_panic (c : cfg) (s : state) : option state :=
-  match apc s, e_tasks s, kpc s with
-  | Aidle, _ :: rest, Kinit => Some (set_panicked (set_etasks s rest))
-  | _, _, _ => None
+  match spc s, apc s, e_tasks s, kpc s with
+  | Sdone, _, _, _ => None
+  | _, Aidle, _ :: rest, Kinit => Some (set_panicked (set_etasks s rest))
+  | _, _, _, _ => None
   end.
 Definition t_achk_busy (c : cfg) (s : state) : option state :=
-  match apc s, e_tasks s, kpc s with
-  | Aidle, _ :: _, Kinit => None
-  | Aidle, _ :: rest, _ => if busy_threshold <=? length (tasks s) then Some (set_etasks s rest) else None
-  | _, _, _ => None
+  match spc s, apc s, e_tasks s, kpc s with
+  | Sdone, _, _, _ => None
+  | _, Aidle, _ :: _, Kinit => None
+  | _, Aidle, _ :: rest, _ => if busy_threshold <=? length (tasks s) then Some (set_etasks s rest) else None
+  | _, _, _, _ => None
   end.
 Definition t_achk_ok (c : cfg) (s : state) : option state :=
-  match apc s, e_tasks s, kpc s with
-  | Aidle, _ :: _, Kinit => None
-  | Aidle, t :: rest, _ => if busy_threshold <=? length (tasks s) then None else Some (set_a (set_etasks s rest) (Apush t))
-  | _, _, _ => None
+  match spc s, apc s, e_tasks s, kpc s with
+  | Sdone, _, _, _ => None
+  | _, Aidle, _ :: _, Kinit => None
+  | _, Aidle, t :: rest, _ => if busy_threshold <=? length (tasks s) then None else Some (set_a (set_etasks s rest) (Apush t))
+  | _, _, _, _ => None
   end.
 Definition t_apush (c : cfg) (s : state) : option (kind * state) :=
-  match apc s with
-  | Apush t => Some (t_kind t, push_task c (set_a s Aidle) t)
-  | Aidle => None
+  match spc s, apc s with
+  | Sdone, _ => None
+  | _, Apush t => Some (t_kind t, push_task c (set_a s Aidle) t)
+  | _, Aidle => None
+  end.
+(* once Stop has closed the database every request fails (mwdb.Update returns an error) *)
+Definition t_afail (c : cfg) (s : state) : option state :=
+  match spc s, apc s, e_tasks s with
+  | Sdone, Apush _, _ => Some (set_a s Aidle)
+  | Sdone, Aidle, _ :: rest => Some (set_etasks s rest)
+  | _, _, _ => None
   end.
 
 (* H *)
@@ -278,7 +290,7 @@ Definition opt1 (l : label) (o : option state) : list (label * state) :=
 
 Definition step_l (c : cfg) (s : state) : list (label * state) :=
   opt1 La (t_ann c s) ++ opt1 Ltp (t_achk_panic c s) ++ opt1 Ltb (t_achk_busy c s) ++
-  opt1 Tachk (t_achk_ok c s) ++
+  opt1 Tachk (t_achk_ok c s) ++ opt1 Lte (t_afail c s) ++
   (match t_apush c s with Some (k, s') => [(Lpush k, s')] | None => [] end) ++
   opt1 Thquit (t_hquit c s) ++ opt1 Lhb (t_hb c s) ++ opt1 Lhc (t_hc c s) ++
   opt1 Tkinit (t_kinit c s) ++ opt1 Tkquit (t_kquit c s) ++ opt1 Tktake (t_ktake c s) ++
